@@ -562,6 +562,9 @@ class _LogAddExp:
         return r_lse(array, axis=axis, keepdims=keepdims, initial=initial)
 
 
+_entropy = itertools.count()
+
+
 class RNGModel:
     """explicit model of numpy's global generator: the state is a term"""
 
@@ -603,7 +606,16 @@ class RNGModel:
         return self.normal(size=size)
 
     def RandomState(self, seed=None):
-        raise Unsupported("np.random.RandomState")
+        """a private generator: its own state term, deterministic in the seed"""
+        if isinstance(seed, (SV, SInt)):
+            raise Unsupported("symbolic seed")
+        r = RNGModel()
+        if seed is None:
+            # seeded from OS entropy: an arbitrary state, different for every call
+            r.state = ("entropy", next(_entropy))
+        else:
+            r.state = ("rs", seed)
+        return r
 
     def default_rng(self, seed=None):
         raise Unsupported("np.random.default_rng")
